@@ -2135,3 +2135,19 @@ M("c16-compact-structend-no-pop", "C16", TH + "compact_protocol.go",
 	p.lastFieldId = p.lastField[len(p.lastField)-1]""", expect="O6 compact-headers")
 M("c16-compact-read-field-no-lastid", "C16", TH + "compact_protocol.go",
   "	// push the new field onto the field stack so we can keep the deltas going.\n	p.lastFieldId = int(id)\n", "", expect="O6 compact-headers")
+
+# ---------------------------------------------------------------- found by the systematic mutation sweep (tools/mutation_sweep.py)
+M("c07-identity-check-inverted", "C07", "scope_registry.go",
+  "	if curr, ok := subscopeBucket.s[key]; ok && curr == s {", "	if curr, ok := subscopeBucket.s[key]; ok && curr != s {", expect="O3 lock-gap")
+M("c07-closed-scope-never-dropped", "C07", "scope_registry.go",
+  """	if curr, ok := subscopeBucket.s[key]; ok && curr == s {
+		delete(subscopeBucket.s, key)
+	}""", """	if curr, ok := subscopeBucket.s[key]; ok && curr == s {
+		_ = curr
+	}""", expect="dropped-after-report")
+M("c03-single-bucket-spec-replaced-by-defaults", "C03", "scope.go",
+  "	if b == nil {\n		b = s.defaultBuckets\n	}", "	if b == nil || b.Len() < 2 {\n		b = s.defaultBuckets\n	}", expect="")
+M("c03-scope-defaults-replace-single-bucket", "C03", "scope.go",
+  "	if opts.DefaultBuckets == nil || opts.DefaultBuckets.Len() < 1 {", "	if opts.DefaultBuckets == nil || opts.DefaultBuckets.Len() <= 1 {", expect="")
+M("c03-scope-defaults-dropped", "C03", "scope.go",
+  "		opts.DefaultBuckets = defaultScopeBuckets\n", "", expect="")
